@@ -109,6 +109,11 @@ func handleRequest(clientID string, req *ntp.Packet, rxt, txt *time.Time, resp *
 	resp.ReferenceID = serverRefID
 
 	*txt = timebase.Now()
+	if !rxt.Before(*txt) {
+		// ensure strict monotonicity of rx/tx timestamps
+		*txt = rxt.Add(1)
+		tssMetrics.txtIncrementsBefore.Inc()
+	}
 
 	rxt64 := ntp.Time64FromTime(*rxt)
 	txt64 := ntp.Time64FromTime(*txt)
